@@ -481,6 +481,21 @@ def m1_m4_scenes_image(ctx: Any, prog: Program) -> None:
     ctx.check('C20.M4', ok, mod, table[0], 'table, summaries and data iterate the same sorted list', func='save_scenes_image_sync', text='one list for table, summaries, data')
     ok = "deferred.set_data(('summary', entry.checksum), file.tell())" in ss and "deferred.set_data(('data', entry.checksum), file.tell(), len(data))" in ss and 'data = entry_to_data[entry]' in ss
     ctx.shape('C20.M4', ok, mod, sf, "each entry's summary offset, data offset and data length are set on the slots keyed by that entry", func='save_scenes_image_sync', text='offsets keyed per entry')
+    # the pool must give every distinct string its own entry: pool[index(s)] == s requires an injective key
+    fi = [c for c in ast.walk(sf) if isinstance(c, ast.Call) and dotted(c.func) in ('binformat.find_or_insert', 'find_or_insert')]
+    if len(fi) != 1:
+        ctx.shape('C20.M4', False, mod, sf, 'string pool construction (find_or_insert) not found', func='save_scenes_image_sync', text='pool key is the string itself')
+    else:
+        key = fi[0].args[1] if len(fi[0].args) > 1 else next((k.value for k in fi[0].keywords if k.arg == 'key_func'), None)
+        ident = isinstance(key, ast.Lambda) and len(key.args.args) == 1 and isinstance(key.body, ast.Name) and key.body.id == key.args.args[0].arg
+        lossy = key is not None and (dotted(key) or '').split('.')[-1] in ('casefold', 'lower', 'upper', 'strip', 'title', 'len', 'hash')
+        if key is None:
+            ctx.check('C20.M4', False, mod, fi[0], 'find_or_insert defaults to key=id: equal strings that are different objects get different pool entries and, worse, recycled ids can alias', func='save_scenes_image_sync', text='pool key is the string itself')
+        elif ident or lossy:
+            ctx.check('C20.M4', ident, mod, fi[0], f'the string pool is keyed by `{ast.unparse(key)}`: two different strings with the same key share one pool entry, so the second reads back as the first', func='save_scenes_image_sync',
+                      text='pool key is the string itself')
+        else:
+            ctx.shape('C20.M4', False, mod, fi[0], f'pool key function `{ast.unparse(key)}` not recognised', func='save_scenes_image_sync', text='pool key is the string itself')
     ok = "entry_to_data[entry] = entry.data.export_binary(add_to_pool)" in ss and 'for sound in entry.sounds:\n            add_to_pool(sound)' in ss and ss.index('add_to_pool(sound)') < ss.index("struct.pack('<4siii'")
     ctx.shape('C20.M4', ok, mod, sf, 'all sounds and scene strings are pooled before the pool size is written', func='save_scenes_image_sync', text='pool complete before header')
 
@@ -693,8 +708,29 @@ def m2_vmt(ctx: Any, prog: Program) -> None:
         ctx.check('C20.M2', bool(guards), mod, exp, f'the {what} is written bare with no quoting guard: it must be quoted when it contains a delimiter character (BARE_DISALLOWED)', func='Material.export', text=f'VMT {what} quoted when needed')
     ok = "param_name.casefold() == 'proxies'" in ast.unparse(par) and "'\\n\\tProxies\\n\\t\\t{\\n'" in src
     ctx.shape('C20.M2', ok, mod, exp, 'Proxies block keyword', func='Material.export', text='VMT proxies keyword')
+    for attr in ('proxies', 'blocks'):
+        adds = [c for c in ast.walk(par) if isinstance(c, ast.Call) and isinstance(c.func, ast.Attribute) and c.func.attr in ('extend', 'append') and dotted(c.func.value) == f'mat.{attr}']
+        if not adds:
+            ctx.shape('C20.M2', False, mod, par, f'mat.{attr} is never filled', func='Material.parse', text=f'VMT {attr} all kept')
+            continue
+        for c in adds:
+            filt = [g for x in ast.walk(c) if isinstance(x, (ast.GeneratorExp, ast.ListComp)) for g in x.generators if g.ifs]
+            parent_if = vmt_guard(mod, c)
+            ctx.check('C20.M2', not filt and parent_if is None, mod, c, f'`{ast.unparse(c)[:80]}` keeps only some of the parsed blocks ({"filter `" + ast.unparse(filt[0].ifs[0]) + "`" if filt else "guard `" + str(parent_if) + "`"}): '
+                      'Material.export writes every block, so the dropped ones are lost on a round trip', func='Material.parse', text=f'VMT {attr} all kept')
     ok = kws.get('string_bracket') is True
     ctx.shape('C20.M2', ok, mod, tk[0], 'bracketed vectors are single string tokens for the parser (the writer quotes them because of the spaces)', func='Material.parse', text='VMT bracket strings')
+
+
+def vmt_guard(mod: Any, call: ast.AST) -> Optional[str]:
+    """an enclosing `if` on the parsed block itself (truthiness / length) between the add and the token dispatch"""
+    p = mod.parents.get(call)
+    while p is not None and not isinstance(p, (ast.FunctionDef, ast.For, ast.While)):
+        q = mod.parents.get(p)
+        if isinstance(q, ast.If) and p in q.body and not any(s in ast.unparse(q.test) for s in ('token', 'Tok.', 'param_name')):
+            return ast.unparse(q.test)[:60]
+        p = q
+    return None
 
 
 # ---- M2 particles -----------------------------------------------------------------------------------------------------------------------
@@ -787,6 +823,17 @@ def m2_smd(ctx: Any, prog: Program) -> None:
     ctx.shape('C20.M2', ok, mod, exp, 'rotations: degrees -> radians on export, radians -> degrees on parse, same component order', func='Mesh.export', text='smd rotation units')
     ok = "link_count * 2 + 1 != len(links_raw)" in psrc and "b' %i %.6f' % (bone_indexes[bone], weight)" in src and 'len(vert.links)' in src
     ctx.shape('C20.M2', ok, mod, exp, 'link list: count followed by (bone, weight) pairs', func='Mesh.export', text='smd link list')
+    # one line per BoneFrame / per vertex: the parser rebuilds each frame from the lines present (no carry-over), so the record write
+    # inside the per-element loop must not sit under a condition
+    for var, what in (('bone_pose', 'skeleton'), ('vert', 'triangle vertex')):
+        loops = [n for n in ast.walk(exp) if isinstance(n, ast.For) and isinstance(n.target, ast.Name) and n.target.id == var]
+        if len(loops) != 1:
+            ctx.shape('C20.M2', False, mod, exp, f'{what} loop not found', func='Mesh.export', text=f'smd {what} records unconditional')
+            continue
+        direct = [st for st in loops[0].body if isinstance(st, ast.Expr) and isinstance(st.value, ast.Call) and dotted(st.value.func) == 'file.write']
+        guarded = [st for st in loops[0].body if isinstance(st, ast.If) and any(isinstance(c, ast.Call) and dotted(c.func) == 'file.write' for c in ast.walk(st))]
+        ctx.check('C20.M2', bool(direct), mod, guarded[0] if guarded else loops[0], f'the {what} line is only written under `{ast.unparse(guarded[0].test)[:60] if guarded else "?"}`: elements for which it is false are missing from the file, and parse_smd '
+                  'has no notion of carrying a previous value forward', func='Mesh.export', text=f'smd {what} records unconditional')
     # determinism: no iteration over a set of bones
     set_names: Dict[str, ast.AST] = {}
     for n in ast.walk(exp):
@@ -848,6 +895,9 @@ MUTANTS: List[Dict[str, Any]] = [
     {'id': 'scenes_v2_summary', 'file': 'choreo.py', 'find': "            file.write(struct.pack('<Ii', entry.duration_ms, len(entry.sounds)))", 'replace': "            file.write(struct.pack('<Iii', entry.duration_ms, entry.last_speak_ms, len(entry.sounds)))", 'expect': 'C20.M1'},
     {'id': 'scenes_sort_removed', 'file': 'choreo.py', 'find': "    scene_list.sort(key=lambda entry: entry.checksum)\n", 'replace': "", 'expect': 'C20.M4'},
     {'id': 'scenes_sort_late', 'file': 'choreo.py', 'find': "    scene_list.sort(key=lambda entry: entry.checksum)\n", 'replace': "", 'extra': [{'file': 'choreo.py', 'find': "    # Now write the summaries.\n", 'replace': "    scene_list.sort(key=lambda entry: entry.checksum)\n"}], 'expect': 'C20.M4'},
+    {'id': 'pool_casefold', 'file': 'choreo.py', 'find': "    add_to_pool = binformat.find_or_insert(pool, lambda x: x)", 'replace': "    add_to_pool = binformat.find_or_insert(pool, str.casefold)", 'expect': 'C20.M4'},
+    {'id': 'smd_pose_delta', 'file': 'smd.py', 'find': "            for bone_pose in frame:\n                x, y, z = bone_pose.position", 'replace': "            for bone_pose in frame:\n                if bone_pose.position == prev.get(bone_pose.bone):\n                    continue\n                x, y, z = bone_pose.position", 'expect': None, 'skip': True},
+    {'id': 'vmt_drop_empty_proxy', 'file': 'vmt.py', 'find': "                        mat.proxies.extend(cls._parse_block(tok, 'Proxy'))", 'replace': "                        mat.proxies.extend(p for p in cls._parse_block(tok, 'Proxy') if p)", 'expect': 'C20.M2'},
     {'id': 'cctoken_raw', 'file': 'choreo.py', 'find': 'cctoken "{escape_text(self.cc_token)}"', 'replace': 'cctoken "{self.cc_token}"', 'expect': 'C20.M2'},
     {'id': 'event_keyword_renamed', 'file': 'choreo.py', 'find': "file.write(f'{indent} distancetotarget {self.dist_to_targ:.2f}\\n')", 'replace': "file.write(f'{indent} distance_to_target {self.dist_to_targ:.2f}\\n')", 'expect': 'C20.M2'},
     {'id': 'snd_range_unquoted', 'file': 'sndscript.py', 'find': """file.write(f'\\tvolume "{join_float(self.volume)}"\\n')""", 'replace': """file.write(f'\\tvolume {join_float(self.volume)}\\n')""", 'expect': 'C20.M2'},
